@@ -107,6 +107,18 @@ type procScenario struct {
 	// library-level concurrent family instead (Conc goroutines, ConcLib rounds; the race twin)
 	Conc    int `json:"conc,omitempty"`
 	ConcLib int `json:"conc_lib,omitempty"`
+	// Hold > 0 (hold.go): the hand-over made deterministic. Processor.Run is NOT started and the events are
+	// NOT read until every step has been handed over. The first Hold steps are handed over one at a time
+	// (each is received by the subprocessor before the next); step Hold-1 is chosen so that dealing with it
+	// BLOCKS the subprocessor (the local unit: broadcastUnit's send; an invalid unit: the report to Run).
+	// The remaining steps are handed over exactly once each, back to back: what ProcessMessage answers and
+	// how many units wait in the channel after each is then determined by the channel alone. Then Run is
+	// started, the events are read, and the subprocessor works through its channel.
+	Hold int `json:"hold,omitempty"`
+	// Doomed (with Hold): step Hold-1 ENDS the subprocessor (an invalid first unit); with Run held back the
+	// ended subprocessor stays registered, what is handed over then goes into its channel and is lost when Run
+	// forgets it. In the model: the units are offered before the `consume` that ends the subprocessor
+	Doomed bool `json:"doomed,omitempty"`
 }
 
 type procEvent struct {
@@ -134,6 +146,11 @@ type procLine struct {
 	// of live subprocessors (both read from the real Processor)
 	Fin   *bool `json:"fin,omitempty"`
 	LiveN *int  `json:"live_n,omitempty"`
+	// Hold mode: units waiting in the subprocessors' channels before / after the step's hand-over, and the
+	// capacity of the step's channel (reflection; -1: not readable)
+	Q0  *int `json:"q0,omitempty"`
+	Q1  *int `json:"q1,omitempty"`
+	Cap *int `json:"cap,omitempty"`
 	// evidence collected by the child (never inferred from the scenario)
 	Ev *procEvidence `json:"evidence,omitempty"`
 }
@@ -404,18 +421,23 @@ func procChild(path string) {
 	defer cancel()
 	ev := &procEvidence{LoggerNil: fieldIsNil(p, "logger")}
 	runNote := make(chan string, 1)
-	go func() {
-		defer func() {
-			if r := recover(); r != nil {
-				st := string(debug.Stack())
-				// the frame that panicked is the first propeller frame below runtime.gopanic
-				ev.RunPanicInRun = firstPropellerFrame(st) == "(*Processor).Run"
-				ev.RunPanicNilDeref = strings.Contains(fmt.Sprint(r), "nil pointer dereference")
-				runNote <- fmt.Sprintf("run-panic: %v", r)
-			}
+	startRun := func() {
+		go func() {
+			defer func() {
+				if r := recover(); r != nil {
+					st := string(debug.Stack())
+					// the frame that panicked is the first propeller frame below runtime.gopanic
+					ev.RunPanicInRun = firstPropellerFrame(st) == "(*Processor).Run"
+					ev.RunPanicNilDeref = strings.Contains(fmt.Sprint(r), "nil pointer dereference")
+					runNote <- fmt.Sprintf("run-panic: %v", r)
+				}
+			}()
+			p.Run(ctx)
 		}()
-		p.Run(ctx)
-	}()
+	}
+	if sc.Hold == 0 {
+		startRun()
+	}
 	timeout := time.Duration(sc.TimeoutMs) * time.Millisecond
 	if timeout == 0 {
 		timeout = 3 * time.Second
@@ -554,7 +576,54 @@ func procChild(path string) {
 	prev := -2
 	childStart := time.Now()
 	ms := func() int64 { return int64(time.Since(childStart)/time.Millisecond) + 1 }
-	for i, st := range sc.Steps {
+	loopSteps := sc.Steps
+	if sc.Hold > 0 {
+		// (see procScenario.Hold) nothing reads the events, Run does not run: a subprocessor that has to
+		// tell anybody anything blocks, and the hand-over is decided by its channel alone
+		loopSteps = nil
+		once := func(u *propeller.Unit, sender peer.ID) string {
+			err := p.ProcessMessage(ctx, u, sender, w.procSched)
+			if err == nil {
+				return "nil"
+			}
+			msg := err.Error()
+			switch {
+			case strings.Contains(msg, "processor channel full"):
+				return "full"
+			case strings.Contains(msg, "couldn't get processor channel"):
+				for _, c := range routeClasses {
+					if strings.Contains(msg, c[0]) {
+						return "err:route:" + c[1]
+					}
+				}
+				return "err:route:other"
+			}
+			return "err:other:" + msg
+		}
+		for i, st := range sc.Steps {
+			u, sender := w.stepUnit(st)
+			q0 := probe.queued()
+			res := once(u, sender)
+			if i < sc.Hold {
+				// the subprocessor is free (or about to block on THIS unit): wait until it has received it
+				deadline := time.Now().Add(20 * time.Second)
+				for n := 0; probe.queued() > 0; n++ {
+					if time.Now().After(deadline) && n >= 2000 {
+						emit(procLine{Step: i, Res: "stuck-hold"})
+						os.Exit(0)
+					}
+					time.Sleep(100 * time.Microsecond)
+				}
+			}
+			q1 := probe.queued()
+			cp := probe.chanCap(u)
+			tk, pt, live := probe.read(u.Publisher)
+			emit(procLine{Step: i, Res: res, Q0: &q0, Q1: &q1, Cap: &cp, Tasks: &tk, PTasks: &pt, LiveN: &live})
+			prev = i
+		}
+		startRun()
+	}
+	for i, st := range loopSteps {
 		t0 := ms()
 		if st.Corrupt == "expire" {
 			// no unit: the subprocessor of message st.M runs into its time-out
@@ -732,6 +801,34 @@ func (t *taskProbe) queued() (n int) {
 	return n
 }
 
+// chanCap: the capacity of the unit channel of the subprocessor of this unit's message key, -1 if there is
+// none or it cannot be read.
+func (t *taskProbe) chanCap(u *propeller.Unit) (c int) {
+	c = -1
+	if t.subMu == nil {
+		return
+	}
+	defer func() {
+		if recover() != nil {
+			c = -1
+		}
+	}()
+	t.subMu.Lock()
+	defer t.subMu.Unlock()
+	it := t.subs.MapRange()
+	for it.Next() {
+		k := it.Key()
+		if it.Value().Kind() == reflect.Chan &&
+			reflect.DeepEqual(k.FieldByName("CommitteeID").Interface(), u.CommitteeID) &&
+			reflect.DeepEqual(k.FieldByName("Publisher").Interface(), u.Publisher) &&
+			reflect.DeepEqual(k.FieldByName("Root").Interface(), u.MessageRoot) &&
+			reflect.DeepEqual(k.FieldByName("Nonce").Interface(), u.Nonce) {
+			return it.Value().Cap()
+		}
+	}
+	return
+}
+
 func (t *taskProbe) sumPublisherTasks() (sum uint64) {
 	t.mu.Lock()
 	defer t.mu.Unlock()
@@ -882,7 +979,20 @@ func noteMachinery(msg string) {
 // childBin: the binary that runs the scenarios (this binary).
 var childBin = os.Args[0]
 
+// runProcChild runs the scenario in a child process. The 60 s limit is a safety net only (a hang of the
+// code under test is noticed by the child itself within seconds and reported as "stuck"): when it expires,
+// the machine was most likely too busy to run the child at all (seen with a load average of 380 on 16
+// cores: no line of output in 60 s), so the scenario is run once more with five times the patience before
+// anything is concluded from it.
 func runProcChild(sc *procScenario) procRun {
+	pr := runProcChildT(sc, 60*time.Second)
+	if pr.timeout && pr.machinery == "" {
+		pr = runProcChildT(sc, 300*time.Second)
+	}
+	return pr
+}
+
+func runProcChildT(sc *procScenario, limit time.Duration) procRun {
 	var pr procRun
 	f, err := os.CreateTemp("", "c19-proc-*.json")
 	if err != nil {
@@ -896,7 +1006,7 @@ func runProcChild(sc *procScenario) procRun {
 	b, _ := json.Marshal(sc)
 	f.Write(b)
 	f.Close()
-	ctx, cancel := context.WithTimeout(context.Background(), 60*time.Second)
+	ctx, cancel := context.WithTimeout(context.Background(), limit)
 	defer cancel()
 	cmd := exec.CommandContext(ctx, childBin, "--c19-child", f.Name())
 	var so, se bytes.Buffer
@@ -2081,6 +2191,7 @@ func secProcessor(h *hctx, r *lib.RNG) {
 	}
 	procDeliverOnce(h, mk)
 	procBurst(h, mk)
+	procHold(h, mk, r)
 	if h.f.Thorough() {
 		raceFamily(h, mk)
 	}
